@@ -1,19 +1,16 @@
 import Adb.Model.Basic
 import Adb.Model.Removeparam
+import Driver.Parse
 /-
   One-line-in / one-line-out driver.  Every answer has the form  `M=<model> S=<spec> D=<0|1>`:
   the output of the model that mirrors the code, the output of the reference semantics, and whether
   the case lies in the domain of the proved theorem relating the two.
 -/
-open Adb
-
-def unhexList (s : String) : Option (List Str) :=
-  if s == "." then some [] else
-  (s.splitOn ",").mapM fun f => match f.toList with
-    | 'x' :: r => unhex (String.ofList r)
-    | _ => none
+open Adb Adb.Net Drv
 
 def ans (m s : String) (d : Bool) : String := s!"M={m} S={s} D={if d then 1 else 0}"
+
+def isAsciiStr (s : Str) : Bool := s.all (fun c => c.val < 128)
 
 def step (line : String) : String :=
   match line.splitOn "\t" with
@@ -27,6 +24,47 @@ def step (line : String) : String :=
       ans (optHex (Removeparam.rewrittenUrl important url names))
           (optHex (Removeparam.spec important url names)) true
     | _, _ => "bad-op"
+  -- derived request fields
+  | ["req", q] => match parseRequest q with
+      | some q =>
+        let o := s!"{q.tyName},{showBool q.isHttp},{showBool q.isHttps},{showBool q.isSupported},{showHashes q.tokens},{match q.srcHashes with | some l => "+" ++ showHashes l | none => "-"}"
+        ans o o (isAsciiStr q.url)
+      | none => "bad-op"
+  -- rule tokens
+  | ["rtok", r] => match parseRule r with
+      | some r =>
+        let o := "|".intercalate (r.getTokens.map showHashes)
+        ans o o true
+      | none => "bad-op"
+  -- one rule against one request
+  | ["m1", r, q] => match parseRule r, parseRequest q with
+      | some r, some q =>
+        let o := showBool (r.matches q)
+        ans o o (isAsciiStr q.url)
+      | _, _ => "bad-op"
+  -- whole engine: chk <optimize> <tags> <store> <request> <rule>*
+  | "chk" :: opt :: tags :: store :: q :: rules =>
+    match unhexList tags, parseStore store, parseRequest q, rules.mapM parseRule with
+    | some tags, some attempts, some q, some rules =>
+      let st := Store.ofAttempts attempts
+      let b := (Blocker.new rules (opt == "1")).useTags tags
+      let d := (Spec.live rules).all (fun r => Spec.tokenSound r q) && isAsciiStr q.url && Spec.idsSeparate rules
+      ans (showVerdict (b.check st q)) ("|".intercalate ((Spec.verdicts rules (dedupS tags) st q).map showVerdict)) d
+    | _, _, _, _ => "bad-op"
+  -- diagnostics: which rules are not token-sound for the request
+  | "ts" :: _ :: _ :: _ :: q :: rules =>
+    match parseRequest q, rules.mapM parseRule with
+    | some q, some rules =>
+      let bad := (List.range rules.length).filter (fun i => !(Spec.tokenSound (rules[i]!) q))
+      ans (toString bad) (toString (q.probe)) true
+    | _, _ => "bad-op"
+  | "csp" :: opt :: tags :: q :: rules =>
+    match unhexList tags, parseRequest q, rules.mapM parseRule with
+    | some tags, some q, some rules =>
+      let b := (Blocker.new rules (opt == "1")).useTags tags
+      let d := (Spec.live rules).all (fun r => Spec.tokenSound r q) && isAsciiStr q.url && Spec.idsSeparate rules
+      ans (showSet (b.csp? q)) (showSet (Spec.csp? rules (dedupS tags) q)) d
+    | _, _, _ => "bad-op"
   | _ => "bad-op"
 
 partial def loop (h : IO.FS.Stream) (out : IO.FS.Stream) : IO Unit := do
